@@ -116,6 +116,22 @@ def byte_case(part, ia32, b, meta, seen_prefix):
                 part.violation('entry=stream kind=offsets %s' % site,
                                'after dis(bin_stream(.., %d)): instr.offset=%r stream.offset=%r (length %d)' % (pad, j.offset, st.offset, l), wit)
                 return
+    # a repeated size-override prefix is redundant: one more byte is consumed, nothing else changes (in particular the
+    # decoder does not read bytes of the following instruction)
+    if tuple(meta[0]) in ((0x66,), (0x67,)):
+        b2 = bytes(meta[0]) + b[:l] + b'\xc3\x90\x90\x90'
+        try:
+            with core.watchdog(5):
+                j = dis(b2)
+                tj = None if j is None else (j.l, j.__str__(asm_format='intel_syntax noprefix'))
+        except Exception as ex:
+            part.violation('entry=repeated-prefix exc=%s in=%s %s' % (type(ex).__name__, raising_function(sys.exc_info()[2]), site),
+                           'dis(%s) raises %r' % (b2.hex(), ex), wit)
+            return
+        if tj != (l + 1, texts[0]):
+            part.violation('entry=repeated-prefix kind=%s pfx=%02x %s' % ('absent' if tj is None else 'length' if tj[0] != l + 1 else 'differs', meta[0][0], site),
+                           'dis(%s) gives %s; with the prefix once: length %d, %s' % (b2.hex(), tj, l, texts[0].strip()), wit)
+            return
     part.ok(core.h64(b), outcome=core.h64(texts[0].split()[0]), sample={'bytes': b[:l].hex(), 'intel': texts[0].strip(), 'truncations_checked': l} if len(part.samples) < 2 else None)
     part.counters['distinct_instructions_truncated'] += 1
 
